@@ -10,6 +10,8 @@ import (
 	"strconv"
 	"strings"
 	"time"
+
+	"golang.org/x/tools/go/ssa"
 )
 
 type propInfo struct {
@@ -61,7 +63,19 @@ func main() {
 		}
 		os.Exit(1)
 	}
+	theProg = p
 	r := resolveRoles(p)
+	p.roots = map[*ssa.Function]bool{}
+	for _, f := range []*ssa.Function{r.FnLoop, r.FnExec, r.FnDisp, r.FnCall} {
+		if f != nil {
+			p.roots[f] = true
+		}
+	}
+	p.rootsAreExits = true
+	if os.Getenv("JRP_DEBUG_ORIGINS") != "" {
+		debugOrigins(newCtx(p, r, "debug"))
+		return
+	}
 	if *dumpRoles {
 		d := r.Describe()
 		keys := make([]string, 0, len(d))
